@@ -13,7 +13,6 @@ import (
 	"crypto/sha256"
 	"encoding/hex"
 	"fmt"
-	"os"
 	"sort"
 	"strings"
 	"sync"
@@ -23,6 +22,7 @@ import (
 	channel "github.com/WuKongIM/WuKongIM/pkg/db/message/channelcompat"
 	"github.com/WuKongIM/WuKongIM/pkg/zzverif/crashfs"
 	"github.com/cockroachdb/pebble/v2"
+	"github.com/cockroachdb/pebble/v2/vfs"
 )
 
 type vc09Quiet struct{}
@@ -46,10 +46,6 @@ func vc09Setup() *crashfs.Router {
 		engine.VerifFS = vc09Router
 		engine.VerifTweak = func(o *pebble.Options) {
 			o.Logger = vc09Quiet{}
-			if os.Getenv("VC09_SMALL") != "" {
-				o.MemTableSize = 4 << 20
-				o.CacheSize = 8 << 20
-			}
 		}
 	})
 	return vc09Router
@@ -210,4 +206,48 @@ func vc09SubsetOf(a, b vc09Dump) bool {
 		}
 	}
 	return true
+}
+
+// vc09ImageHash is a content hash of the database directory of a crash image (file names
+// and bytes). Two images with the same hash are the same disk; the deterministic recovery
+// is executed once for them.
+func vc09ImageHash(mem *vfs.MemFS, dir string) (string, error) {
+	names, err := mem.List(dir)
+	if err != nil {
+		return "", err
+	}
+	sort.Strings(names)
+	h := sha256.New()
+	for _, n := range names {
+		full := mem.PathJoin(dir, n)
+		info, err := mem.Stat(full)
+		if err != nil {
+			return "", err
+		}
+		fmt.Fprintf(h, "%d:%s:%v:", len(n), n, info.IsDir())
+		if info.IsDir() {
+			sub, err := vc09ImageHash(mem, full)
+			if err != nil {
+				return "", err
+			}
+			h.Write([]byte(sub))
+			continue
+		}
+		f, err := mem.Open(full)
+		if err != nil {
+			return "", err
+		}
+		size := info.Size()
+		buf := make([]byte, size)
+		if size > 0 {
+			if _, err := f.ReadAt(buf, 0); err != nil {
+				f.Close()
+				return "", err
+			}
+		}
+		f.Close()
+		fmt.Fprintf(h, "%d:", size)
+		h.Write(buf)
+	}
+	return hex.EncodeToString(h.Sum(nil)), nil
 }
